@@ -57,6 +57,10 @@ structure Reg where
 def Reg.write (r : Reg) (c : Cell) (k : Counters) : Reg :=
   { r with cells := fun c' => if c' = c then k else r.cells c' }
 
+/-- `CacheStats::reset` through a reference: the heap with that cell zeroed (what the translated `stats.reset()` does) -/
+def heapReset (cells : Cell → Counters) (c : Cell) : Cell → Counters :=
+  fun c' => if c' = c then Counters.zero else cells c'
+
 inductive Op
   /- `stats_registry` -/
   | register (name : String) (c : Cell)   -- `register(name, &CELL_c)`
